@@ -37,6 +37,8 @@ def make_universe(seed, tags=(1, 2, 3, 11, 12, 13)):
             m = [[(rng.choice([-1, 1]) * rng.randint(1, 40)) if rng.random() < dens else 0 for _ in range(cols)] for _ in range(rows)]
             if n == 0 and rows > 1:
                 m[rng.randrange(rows)] = [0] * cols            # an all-pruned row
+            if n == 2:
+                m[rng.randrange(rows)][rng.randrange(cols)] = rng.choice([-1, 1]) * TINY      # a stored logit of magnitude 3e-9
             key = repr(m)
             if key not in seen and any(v for r in m for v in r):
                 seen.add(key)
@@ -48,14 +50,24 @@ def make_universe(seed, tags=(1, 2, 3, 11, 12, 13)):
     return {"mats": mats, "chars": chars, "coords": coords, "dtypes": {t: np.dtype(d).name for t, d in dtypes.items()}}
 
 
+TINY = 77            # abstract entry rendered as the stored logit +-3e-9: stored, not exactly 0.0, hence neither pruned nor floored
+TINY_REAL = 3e-9
+
+
 def real_matrix(u, t):
-    arr = np.array(u["mats"][t], dtype=np.dtype(u["dtypes"][t])) / 8
+    m = np.array(u["mats"][t], dtype=np.float64)
+    arr = m / 8
+    arr[m == TINY] = TINY_REAL
+    arr[m == -TINY] = -TINY_REAL
     return sp.csc_matrix(arr.astype(np.dtype(u["dtypes"][t])))
 
 
 # ------------------------------------------------------------------------------------------ abstract <-> real
-def build_layout(lines, u, name):
-    """lines = [{"id", "lg", "ch", "co"}]; spread over regions (first half / empty region / second half)"""
+def build_layout(lines, u, name, ctor_defaults=False):
+    """lines = [{"id", "lg", "ch", "co"}]; spread over regions (first half / empty region / second half).
+    Default: the three components are assigned as attributes after construction, so the abstract state is realised whatever
+    the constructor does with its arguments.  ctor_defaults=True: a component that is missing in the abstract state is simply
+    not passed to the constructor (what user code does) and nothing is assigned afterwards."""
     page = PageLayout(id=name, page_size=(10, 10))
     cut = (len(lines) + 1) // 2
     groups = [lines[:cut], [], lines[cut:]]
@@ -63,8 +75,15 @@ def build_layout(lines, u, name):
         reg = RegionLayout("%s-r%d" % (name, g), np.zeros((4, 2)))
         for l in part:
             co = None if l["co"] == NONE else ([None, None] if l["co"] == NONENONE else list(u["coords"][l["co"]]))
-            reg.lines.append(TextLine(id=l["id"], logits=None if l["lg"] == NONE else real_matrix(u, l["lg"]),
-                                      characters=None if l["ch"] == NONE else list(u["chars"][l["ch"]]), logit_coords=co))
+            lg = None if l["lg"] == NONE else real_matrix(u, l["lg"])
+            ch = None if l["ch"] == NONE else list(u["chars"][l["ch"]])
+            if ctor_defaults:
+                kw = {k: v for k, v in (("logits", lg), ("characters", ch), ("logit_coords", co)) if v is not None}
+                reg.lines.append(TextLine(id=l["id"], **kw))
+            else:
+                line = TextLine(id=l["id"])
+                line.logits, line.characters, line.logit_coords = lg, ch, co
+                reg.lines.append(line)
         page.regions.append(reg)
     return page
 
@@ -141,7 +160,10 @@ def _fix8(a):
         r = []
         for v in row:
             f = float(v) * 8
-            r.append(int(f) if np.isfinite(f) and f.is_integer() and abs(f) < 2 ** 30 else BADVAL)
+            if 0 < abs(float(v)) < 1e-6:
+                r.append(TINY if v > 0 else -TINY)
+            else:
+                r.append(int(f) if np.isfinite(f) and f.is_integer() and abs(f) < 2 ** 30 else BADVAL)
         out.append(r)
     return out
 
@@ -172,8 +194,11 @@ def run_case(case):
         os.remove(path)
     slot = {"bytes": None}
     try:
-        lay = {"A": build_layout(case["A"], u, "A"), "B": build_layout(case["B"], u, "B")}
-        if proj_layout(lay["A"], u) != case["A"] or proj_layout(lay["B"], u) != case["B"]:
+        cd = bool(case.get("ctor_defaults"))
+        lay = {"A": build_layout(case["A"], u, "A", ctor_defaults=cd), "B": build_layout(case["B"], u, "B", ctor_defaults=cd)}
+        # (constructor-default cases: what the constructor made of an omitted component is part of the observation and is
+        #  judged by the trace specification through the layouts recorded after the first call)
+        if not cd and (proj_layout(lay["A"], u) != case["A"] or proj_layout(lay["B"], u) != case["B"]):
             tr["outcome"] = "harness:build-mismatch"
             return tr
 
